@@ -2,6 +2,7 @@ import CppUModel.Proofs.LeakDetector
 import CppUModel.Model.LeakPluginDrive
 import CppUModel.Proofs.LeakOverloads
 import CppUModel.Gen.LeakDetectorLoops
+import CppUModel.Model.LeakReportText
 /-!
 # C04 — leak accounting is exact for every allocation history
 
@@ -817,5 +818,85 @@ theorem gen_table_ops (t : Table) (a : Nat) (p : Period) :
 example : (Gen.LeakLoops.removeNode exState.nodes 1168).2.map (·.addr) = [1168 + 146, 1169] ∧
     (Gen.LeakLoops.removeNode exState.nodes 1168).1.map (·.number) = some 1 ∧
     Gen.LeakLoops.getTotalLeaks .checking exState.nodes = 2 := by decide
+
+/-! ## reports asked for again on one detector (no `startChecking()` in between)
+
+`report()` appends to the text of the earlier reports and finds the builder's counters as they left them.  The
+regenerated bodies say where the counters are reset: in `startMemoryLeakReporting`, i.e. at the beginning of EVERY
+report, so each report states the total, the malloc note and the no-leaks answer of its own leaks. -/
+
+section ReportAgain
+open Diag
+
+/-- both resets are statements of the regenerated `startMemoryLeakReporting` -/
+theorem report_start_resets (o : OutBuf) : outStart o = o.start := by
+  simp [outStart, applyResets, OutBuf.start, Gen.DiagBuf.startMemoryLeakReporting]
+
+/-- … and `MemoryLeakOutputStringBuffer::clear` only empties the text -/
+theorem text_clear_keeps_counters (o : OutBuf) : outClear o = o.clear := by
+  simp [outClear, applyResets, OutBuf.clear, Gen.DiagBuf.obClear]
+
+theorem foldl_reportLeak_total (leaks : List Leak) : ∀ o : OutBuf,
+    (leaks.foldl OutBuf.reportLeak o).total = o.total + leaks.length := by
+  induction leaks with
+  | nil => intro o; simp
+  | cons l ls ih => intro o; simp [List.foldl_cons, ih, OutBuf.reportLeak]; omega
+
+theorem foldl_reportLeak_warn (leaks : List Leak) : ∀ o : OutBuf,
+    (leaks.foldl OutBuf.reportLeak o).mallocWarn = (o.mallocWarn || leaks.any (fun l => l.allocName == Gen.Diag.mallocName)) := by
+  induction leaks with
+  | nil => intro o; simp
+  | cons l ls ih => intro o; simp [List.foldl_cons, ih, OutBuf.reportLeak, Bool.or_assoc]
+
+/-- Whatever the earlier reports left in the builder (`o` is arbitrary), `stopMemoryLeakReporting` finds the number of
+    THIS report's leaks as the total and the malloc note flag of THIS report's leaks. -/
+theorem report_again_states_true_total (o : OutBuf) (leaks : List Leak) :
+    (outBeforeStop o leaks).total = leaks.length ∧
+    (outBeforeStop o leaks).mallocWarn = leaks.any (fun l => l.allocName == Gen.Diag.mallocName) := by
+  unfold outBeforeStop
+  rw [foldl_reportLeak_total, foldl_reportLeak_warn, report_start_resets]
+  simp [OutBuf.start]
+
+/-- every report of a history of reports on one detector states the true total, regardless of the earlier ones -/
+theorem every_report_states_true_total (hist : List (List Leak)) : ∀ o : OutBuf,
+    statedTotals o hist = hist.map List.length := by
+  induction hist with
+  | nil => intro o; rfl
+  | cons l rest ih => intro o; simp [statedTotals, ih, (report_again_states_true_total o l).1]
+
+/-- the answer of a report asked for again: "no leaks" exactly when it has no leak to list; otherwise the header comes
+    before its first entry and the footer is built from its own total and its own malloc flag -/
+theorem report_again_answer (o : OutBuf) (leaks : List Leak) :
+    (leaks = [] → (outReport o leaks).buf = (o.start.buf).add (Fmt.render Gen.Diag.noLeaksFmt [])) ∧
+    (leaks ≠ [] → (outReport o leaks).buf =
+        stopTail (outBeforeStop o leaks).buf leaks.length (leaks.any (fun l => l.allocName == Gen.Diag.mallocName))) ∧
+    (∀ l ls, leaks = l :: ls → outBeforeStop o leaks =
+        ls.foldl OutBuf.reportLeak { buf := ((o.start.buf.add headerText).add (leakText l)).addMemoryDump l.content,
+                                     total := 1, mallocWarn := l.allocName == Gen.Diag.mallocName }) := by
+  refine ⟨?_, ?_, ?_⟩
+  · intro h; subst h
+    simp [outReport, outBeforeStop, report_start_resets, OutBuf.stop, OutBuf.start]
+  · intro h
+    have ht := report_again_states_true_total o leaks
+    have hne : leaks.length ≠ 0 := by
+      intro h0; exact h (List.length_eq_zero_iff.mp h0)
+    unfold outReport OutBuf.stop
+    rw [ht.1, ht.2]
+    simp [hne]
+  · intro l ls h; subst h
+    simp [outBeforeStop, report_start_resets, List.foldl_cons, OutBuf.reportLeak, OutBuf.start]
+
+/-- non-vacuity: two leaks, one released, then the other: the three reports state 2, 1, 0 -/
+def exLeakA : Leak := { number := 1, size := 2, file := [97], line := 11, allocName := [110, 101, 119], ptr := [48], content := [1, 2] }
+def exLeakB : Leak := { number := 2, size := 1, file := [98], line := 22, allocName := Gen.Diag.mallocName, ptr := [49], content := [3] }
+
+example : statedTotals OutBuf.init [[exLeakA, exLeakB], [exLeakB], []] = [2, 1, 0] :=
+  every_report_states_true_total _ _
+example : (outBeforeStop (outReport OutBuf.init [exLeakA, exLeakB]) [exLeakA]).mallocWarn = false :=
+  (report_again_states_true_total _ _).2
+example : ((outReports OutBuf.init [[exLeakA, exLeakB], [exLeakB], []]).map (·.total)) = [2, 1, 0] := by
+  simp [outReports, outReport, OutBuf.stop, (report_again_states_true_total _ _).1]
+
+end ReportAgain
 
 end LeakDetector
